@@ -50,8 +50,18 @@ def tlc(module, cfg, workdir, env=None, workers=None, timeout=600, trace_mode=Fa
         e.update({k: str(v) for k, v in env.items()})
     if workers is None:
         workers = min(8, NCPU)
+    # the thorough tier gets proportionally longer limits (set by ./check); a limit that is hit is a tool error, never a verdict
+    timeout = int(timeout * float(os.environ.get("VERIF_TIMEOUT_SCALE", "1")))
     cmd = ["timeout", str(timeout), "java"] + jargs + ["-cp", TLA_CP, "tlc2.TLC", "-workers", str(workers), "-metadir", meta,
            "-cleanup", "-noGenerateSpecTE"]
+    # action / expression coverage of model-checking runs (vacuity control): on by default for MC_* modules in the quick tier
+    # (only for the state-machine models whose operators are light: expression coverage makes TLC many times slower on the
+    # models that evaluate large recursive definitions per state -- Wire, Blind, SigMsg, PsetMerge, Checksum, Addr)
+    light = {"MC_PsetOps", "MC_PsetBlind", "MC_SighashCache", "MC_PsetView", "MC_Dynafed", "MC_FastMerkle", "MC_Issuance", "MC_PsetCodec",
+             "MC_Taproot", "MC_ScriptSpec"}
+    if coverage is False and module in light and not trace_mode and simulate is None and os.environ.get("VERIF_TLC_COVERAGE", "1") == "1" \
+            and os.environ.get("VERIF_TIER_CURRENT", "quick") == "quick":
+        coverage = True
     if coverage:
         cmd += ["-coverage", "1"]
     if simulate:
@@ -76,6 +86,15 @@ def tlc(module, cfg, workdir, env=None, workers=None, timeout=600, trace_mode=Fa
     res["emitted"] = [int(x) for x in me.group(1).split(",")] if me else []
     md = re.search(r"depth of the complete state graph search is (\d+)", out)
     res["depth"] = int(md.group(1)) if md else 0
+    if coverage:
+        # last coverage report: "<Action line .. of module M>: distinct:generated" and "  line .. of module M: count"
+        last = out.rfind("The coverage statistics at")
+        rep = out[last:] if last >= 0 else ""
+        acts = re.findall(r"^<(\w+) line (\d+), col \d+ to line \d+, col \d+ of module (\w+)[^>]*>: (\d+):(\d+)", rep, re.M)
+        res["actions"] = {"%s.%s@%s" % (m_, a, l): [int(d), int(g)] for a, l, m_, d, g in acts if a not in ("Init",)}
+        res["actions_never_taken"] = sorted(k for k, v in res["actions"].items() if v[1] == 0)
+        zero = re.findall(r"^\s+\|*line (\d+), col (\d+) to line (\d+), col (\d+) of module (\w+): 0\s*$", rep, re.M)
+        res["uncovered_expressions"] = ["%s:%s:%s-%s:%s" % (m_, a, b, c_, d) for a, b, c_, d, m_ in zero]
     return res
 
 
@@ -104,6 +123,7 @@ def vh(args, timeout=3600, stdin=None, crash=None):
     env = dict(os.environ)
     if crash:
         env["VH_DEBUG_LAST"] = "1"
+    timeout = int(timeout * float(os.environ.get("VERIF_TIMEOUT_SCALE", "1")))
     p = subprocess.run(["timeout", str(timeout), VH] + [str(a) for a in args], cwd=VERIF, stdout=subprocess.PIPE,
                        stderr=subprocess.PIPE, text=True, input=stdin, env=env)
     if crash and (p.returncode < 0 or p.returncode in (134, 139)):
@@ -165,8 +185,16 @@ class Check:
         self.cov["transitions"] += res["generated"]
         if res.get("emitted"):
             self.cov["tlc_constant_level_cases"] = self.cov.get("tlc_constant_level_cases", 0) + sum(res["emitted"])
-        self.cov["tlc_runs"].append({"module": res["module"], "cfg": res["cfg"], "distinct": res["distinct"],
-                                     "generated": res["generated"], "depth": res["depth"], "wall_s": res["wall_s"], "note": note})
+        run = {"module": res["module"], "cfg": res["cfg"], "distinct": res["distinct"],
+               "generated": res["generated"], "depth": res["depth"], "wall_s": res["wall_s"], "note": note}
+        if "actions" in res:
+            run["actions_distinct_generated"] = res["actions"]
+            run["actions_never_taken"] = res["actions_never_taken"]
+            run["uncovered_expressions"] = res["uncovered_expressions"][:40]
+            run["uncovered_expression_count"] = len(res["uncovered_expressions"])
+        if res.get("cached"):
+            run["reused_emission"] = res["cached"]
+        self.cov["tlc_runs"].append(run)
 
     def add_vh(self, rep, eval_key="evaluations", distinct_key=None, traces_key=None, panics_only=False):
         self.cov["evaluations"] += rep["stats"].get(eval_key, 0)
